@@ -164,8 +164,36 @@ type caseDump struct {
 	Err     string                 `json:"err,omitempty"`
 }
 
+// trimBig shortens what a dump shows of very long strings and lists (the case is regenerated from its index when it is
+// replayed; a dump of megabytes per violating case would only fill the logs).
+func trimBig(v interface{}) interface{} {
+	switch x := v.(type) {
+	case string:
+		if len(x) > 600 {
+			return fmt.Sprintf("%s...(%d bytes in all)...%s", x[:300], len(x), x[len(x)-100:])
+		}
+	case []interface{}:
+		out := make([]interface{}, 0, 24)
+		for i, e := range x {
+			if i >= 20 {
+				out = append(out, fmt.Sprintf("...(%d items in all)", len(x)))
+				break
+			}
+			out = append(out, trimBig(e))
+		}
+		return out
+	case map[string]interface{}:
+		out := map[string]interface{}{}
+		for k, e := range x {
+			out[k] = trimBig(e)
+		}
+		return out
+	}
+	return v
+}
+
 func dump(files []srcFile, p *gen.Program, d map[string]ref.Value) *caseDump {
-	c := &caseDump{Files: files, Entry: p.Entry, Data: goData(d)}
+	c := &caseDump{Files: files, Entry: p.Entry, Data: trimBig(goData(d)).(map[string]interface{})}
 	if p.IJ != nil {
 		c.IJ = p.IJ.ToGo()
 	}
